@@ -254,6 +254,24 @@ type stOp struct {
 	id   []byte
 	val  stVal
 	cap  uint64 // kind 'c': close, then reopen with this capacity in MB (a configuration change between runs)
+	// kind 'b': a bulk of `count` puts of tiny far items (ids and values derived from seed and index, see bulkItem);
+	// observed as one step
+	count int
+	seed  int
+}
+
+// item i of a bulk: key f0|i>>8, i&0xff, seed, 0... (the far end of the key space) and a value of 0..16 bytes
+func bulkItem(node []byte, seed, i int) ([]byte, []byte) {
+	k := make([]byte, 32)
+	k[0] = 0xf0 | byte((i>>8)&0x0f)
+	k[1] = byte(i)
+	k[2] = byte(seed)
+	n := (i*7 + seed) % 17
+	v := make([]byte, n)
+	for j := range v {
+		v[j] = byte(i + j + seed)
+	}
+	return xor32(k, node), v
 }
 
 func parseOps(s string) []stOp {
@@ -273,6 +291,10 @@ func parseOps(s string) []stOp {
 		case "c":
 			mb, _ := strconv.ParseUint(f[1], 10, 64)
 			ops = append(ops, stOp{kind: 'c', cap: mb})
+		case "b":
+			n, _ := strconv.Atoi(f[1])
+			sd, _ := strconv.Atoi(f[2])
+			ops = append(ops, stOp{kind: 'b', count: n, seed: sd})
 		}
 	}
 	return ops
@@ -291,6 +313,8 @@ func opsString(ops []stOp) string {
 			p[i] = "g," + hx(o.id)
 		case 'c':
 			p[i] = fmt.Sprintf("c,%d", o.cap)
+		case 'b':
+			p[i] = fmt.Sprintf("b,%d,%d", o.count, o.seed)
 		default:
 			p[i] = "r"
 		}
@@ -302,7 +326,7 @@ func idPool(ops []stOp) [][]byte {
 	var ids [][]byte
 	seen := map[string]bool{}
 	for _, o := range ops {
-		if o.kind == 'r' || o.kind == 'c' {
+		if o.kind == 'r' || o.kind == 'c' || o.kind == 'b' {
 			continue
 		}
 		if !seen[string(o.id)] {
@@ -350,6 +374,16 @@ func stHistory(c *Ctx, kind string, capMB uint64, node [32]byte, ops []stOp) {
 				s.pruned = true
 			case 'g':
 				res = s.get(o.id)
+			case 'b':
+				acc := 0
+				for i := 0; i < o.count; i++ {
+					id, v := bulkItem(node[:], o.seed, i)
+					if s.cs.Put(nil, id, v) == nil {
+						acc++
+					}
+				}
+				res = fmt.Sprintf("b%d", acc)
+				s.pruned = true
 			case 'r':
 				if err := s.reopen(); err != nil {
 					panic("reopen: " + err.Error())
@@ -751,6 +785,40 @@ func stRetainClasses(c *Ctx, round int) {
 	c.Emit("%s | ok checked=%d changed=%d classes=%s", head, checked, total, cl)
 }
 
+// Directed history: a few large near items, then `count` tiny items (0..16 bytes) at the far end of the key space,
+// then a put of exactly 5% of the capacity: the pruning pass of that put has to delete far more than a thousand
+// items to free its 5%.
+func stManyTiny(c *Ctx, kind string, count int, seed int) {
+	node := genNode(c)
+	near := func(x byte) []byte { k := make([]byte, 32); k[0] = x; k[31] = byte(seed); return xor32(k, node[:]) }
+	// bytes the bulk will take: 32 + (i*7+seed)%17 each
+	bulk := 0
+	for i := 0; i < count; i++ {
+		bulk += 32 + (i*7+seed)%17
+	}
+	fill := 1000000 - bulk - 20000 // the store ends 20 kB below capacity before the 5% put
+	var ops []stOp
+	x := byte(1)
+	vid := uint64(8000 + 100*seed)
+	for fill > 0 {
+		n := 300000
+		if fill < n+40000 {
+			n = fill
+		}
+		vid++
+		ops = append(ops, stOp{kind: 'p', id: near(x), val: stVal{long: true, vid: vid, n: n - 32}})
+		fill -= n
+		x++
+	}
+	ops = append(ops, stOp{kind: 'b', count: count, seed: seed})
+	ops = append(ops, stOp{kind: 'g', id: near(1)})
+	vid++
+	ops = append(ops, stOp{kind: 'p', id: near(x), val: stVal{long: true, vid: vid, n: 50000 - 32}}) // 5% of 1 MB incl. the key
+	ops = append(ops, stOp{kind: 'p', id: near(x + 1), val: stVal{raw: []byte{1, 2, 3}}}, stOp{kind: 'r'})
+	c.Count("many_tiny_items_history")
+	stHistory(c, kind, 1, node, ops)
+}
+
 func stThr(c *Ctx, capMB uint64) {
 	a, b := spebble.VerifThresholds(capMB)
 	c.Emit("thr %d | ok %d %d", capMB, a, b)
@@ -1002,6 +1070,13 @@ func runStorage(c *Ctx, prop string) {
 				nops = 30 + r.Intn(50)
 			}
 			stHistory(c, kind, capMB, node, genOps(c, capMB, ids, nops, prof, r.Intn(3) == 0))
+		}
+		stManyTiny(c, kind, 1500, 1+r.Intn(200))
+		stManyTiny(c, kind, 2600, 1+r.Intn(200))
+		if thorough {
+			for i := 0; i < 10; i++ {
+				stManyTiny(c, kind, 1100+r.Intn(1900), 1+r.Intn(200))
+			}
 		}
 		rounds := 3
 		if thorough {
